@@ -60,6 +60,33 @@ def pair_classes(sh, rnd):
             b[i + 1] = ['l'] + [5] * cb + ob
             f = shapes.follower_of(sh, a, rnd) if rnd.random() < 0.7 else a
             return a, b, f, 'multiplicity'
+    if shapes.plain_only(sh) and shapes.has_float(sh) and rnd.random() < 0.2:
+        # ==-twin class (types whose == is coarser than identity): the diff of (a, b) is ALSO applied to a base that is == to
+        # the target b but rendered differently (every float zero of the other sign); a is anything that is != b
+        b = shapes.gen_zeroish(sh, rnd)
+        f = shapes.flip_zeros(sh, b)
+        for _ in range(20):
+            a = shapes.gen_value(sh, rnd)
+            if not peq_value(sh, a, b): break
+        if f != b:
+            return a, b, f, 'eq-twin-base'
+    if sh['t'] == 'struct':
+        # shrink class: a map-like / array-like collection loses more than half of its keys / items but not all of them:
+        # the NON-EMPTY full replacement of the unordered strategies (its payload, its codec, its apply arm)
+        cands = [i for i, f in enumerate(sh['fields']) if f['k'] in ('map', 'recmap', 'unord')]
+        if cands and rnd.random() < 0.1:
+            i = rnd.choice(cands); f = sh['fields'][i]
+            a = list(a)
+            for _ in range(20):
+                if len(a[i + 1]) - 1 >= 4: break
+                a[i + 1] = shapes.gen_field(f, rnd)
+            if len(a[i + 1]) - 1 >= 4:
+                b = list(shapes.mutate_value(sh, a, rnd, 0.15))
+                keep = rnd.sample(a[i + 1][1:], rnd.choice([1, 1, 2]) if len(a[i + 1]) - 1 >= 6 else 1)
+                if f['k'] == 'map':
+                    keep = [[kv[0], (int(kv[1]) + 1) % 3] if rnd.random() < 0.3 else kv for kv in keep]
+                b[i + 1] = [a[i + 1][0]] + sorted(keep, key=lambda x: int(x[0]) if isinstance(x, list) else int(x))
+                return a, b, (shapes.follower_of(sh, a, rnd) if rnd.random() < 0.7 else a), 'shrink'
     if sh['t'] == 'enum' and rnd.random() < 0.3:
         # same variant, another payload: a derived `==` has to look inside the variant
         for _ in range(30):
